@@ -83,9 +83,9 @@ def gen_map(rs):
     for _ in range(nreg):
         if not free:
             break
-        kind = rs.weighted([(4, "mem"), (3, "memu"), (4, "fields"), (2, "cnt"), (2, "file"), (2, "array")])
-        if kind in ("file", "array"):
-            n = 2 if kind == "file" else rs.range(2, 3)
+        kind = rs.weighted([(4, "mem"), (3, "memu"), (4, "fields"), (2, "cnt"), (2, "file"), (2, "array"), (3, "memory"), (1, "range")])
+        if kind in ("file", "array", "memory", "range"):
+            n = 2 if kind == "file" else rs.range(2, 3) if kind == "array" else rs.choice([2, 2, 3, 4, 4, 8])
             starts = [w for w in free if all((w + i) in free for i in range(n))]
             if not starts:
                 kind = "mem"
@@ -93,7 +93,16 @@ def gen_map(rs):
                 w0 = rs.choice(starts)
                 for i in range(n):
                     free.remove(w0 + i)
-                entries.append({"kind": kind, "word": w0, "n": n})
+                e = {"kind": kind, "word": w0, "n": n}
+                if kind == "memory":
+                    e["mode"] = rs.choice(["IMMEDIATE", "IMMEDIATE", "IGNORE", "READBACK", "SPLIT_WORDS"])
+                    e["inline"] = rs.below(3) == 0
+                    e["noreset"] = rs.below(3) == 0
+                    e["init"] = None if rs.below(3) == 0 else [rs.bits(32) for _ in range(n)]
+                    e["decl"] = rs.choice(["slice", "class"])
+                if kind == "range":
+                    e["relative"] = rs.below(2) == 1
+                entries.append(e)
                 continue
         w0 = rs.choice(free)
         free.remove(w0)
@@ -156,9 +165,23 @@ def render_src(m):
             root.append(f"    r{i}: G{i}[{off:#x}]")
         elif k == "array":
             root.append(f"    r{i}: reg32.Array[reg32.MemWord, {off}:{off + 4 * e['n']}:4]")
+        elif k == "memory":
+            if e["decl"] == "class":
+                L += [f"class M{i}(reg32.Memory, word_count={e['n']}):", "    pass", ""]
+                root.append(f"    r{i}: M{i}[{off:#x}]")
+            else:
+                root.append(f"    r{i}: reg32.Memory[{off:#x}:{off + 4 * e['n']:#x}]")
+        elif k == "range":
+            fn = "_on_read_relative_" if e["relative"] else "_on_read_"
+            L += [f"class A{i}(reg32.AddrRange, word_count={e['n']}):", f"    def {fn}(self, addr):", "        return std.leftpad(addr, 32).bitvector", ""]
+            root.append(f"    r{i}: A{i}[{off:#x}]")
     L.append(f"class Root(reg32.AddrMap, word_count={m['words']}):")
     L += root
     cfg = [f"        self.r{i}._config_({e['default']})" for i, e in enumerate(m["entries"]) if e["kind"] == "memu"]
+    for i, e in enumerate(m["entries"]):
+        if e["kind"] == "memory":
+            init = "Null" if e["init"] is None else "[Unsigned[32](v) for v in " + repr(e["init"]) + "]"
+            cfg.append(f"        self.r{i}._config_(initial={init}, noreset={e['noreset']}, mask_mode=reg32.Memory.MaskMode.{e['mode']}, inline={e['inline']})")
     if cfg:
         L += ["    def _config_(self):"] + cfg
     L += ["", "class E(cohdl.Entity):", PORTS, ARCH]
@@ -189,6 +212,12 @@ class Model:
             elif k in ("file", "array"):
                 for i in range(e["n"]):
                     self.words[e["word"] + i] = {"kind": "mem", "wmask": 0xFFFFFFFF, "val": 0}
+            elif k == "memory":
+                for i in range(e["n"]):
+                    self.words[e["word"] + i] = {"kind": "memory", "wmask": 0xFFFFFFFF, "val": e["init"][i] if e["init"] else 0, "ignore_strb": e["mode"] == "IGNORE"}
+            elif k == "range":
+                for i in range(e["n"]):
+                    self.words[e["word"] + i] = {"kind": "range", "wmask": 0, "val": 4 * i if e["relative"] else 4 * (e["word"] + i)}
         self.reset_state = {w: dict(d) for w, d in self.words.items()}
 
     def reset(self):
@@ -202,6 +231,8 @@ class Model:
         for b in range(4):
             if (strb >> b) & 1:
                 bm |= 0xFF << (8 * b)
+        if w.get("ignore_strb"):
+            bm = 0xFFFFFFFF
         mask = bm & w["wmask"]
         w["val"] = (w["val"] & ~mask) | (data & mask)
         if w["kind"] == "cnt":
